@@ -243,3 +243,276 @@ Proof.
   rewrite (Rdot_comm w (unitv p a)), Rdot_unitv by lia.
   rewrite (Rdot_comm w), Rdot_repeat0. field.
 Qed.
+
+(* ========================================================================================== *)
+(** * Part F: the Ky Fan bound against the reported explained variances *)
+
+Lemma Rabs_le_inv x y : Rabs x <= y -> - y <= x <= y.
+Proof. unfold Rabs. destruct (Rcase_abs x); lra. Qed.
+Lemma map_nth_seq_gen {A B} (g : A -> B) d (l : list A) : map (fun i => g (nth i l d)) (seq 0 (length l)) = map g l.
+Proof.
+  induction l as [|a l IH]; simpl; auto. f_equal. rewrite <- seq_shift, map_map. exact IH.
+Qed.
+
+Lemma Rsum_map_le_eps {A} (f g : A -> R) e l : (forall a, In a l -> f a <= g a + e) ->
+  Rsum (map f l) <= Rsum (map g l) + INR (length l) * e.
+Proof.
+  intros H. rewrite <- (Rsum_map_const e l), <- Rsum_map_plus. apply Rsum_map_le. exact H.
+Qed.
+
+Lemma retained_Rsum scs G :
+  retained oR scs G = Rsum (map (fun i => nth i scs 0 * nth i (nth i G []) 0) (seq 0 (length scs))).
+Proof. unfold retained. rewrite ssum_Rsum. reflexivity. Qed.
+
+(* diagonal of the projected-covariance conjunct, for any matrix G *)
+Lemma projcov_ok_diag T lams scs G : projcov_ok oR T lams scs G = true ->
+  forall i, (i < length lams)%nat -> Rabs (nth i scs 0 * nth i (nth i G []) 0 - nth i lams 0) <= tolR 20 * T.
+Proof.
+  unfold projcov_ok. intros H i Hi.
+  pose proof (forallb_seq _ _ (forallb_seq _ _ H i Hi) i Hi) as K. cbv beta zeta in K.
+  rewrite Nat.eqb_refl in K. apply absle_R in K. exact K.
+Qed.
+Lemma projcov_ok_entries T lams scs G : projcov_ok oR T lams scs G = true ->
+  forall i j, (i < length lams)%nat -> (j < length lams)%nat ->
+  let g := nth j (nth i G []) 0 in
+  (i = j -> Rabs (nth i scs 0 * g - nth i lams 0) <= tolR 20 * T) /\
+  (i <> j -> nth i scs 0 * nth j scs 0 * (g * g) <= (tolR 20 * T) * (tolR 20 * T)).
+Proof.
+  unfold projcov_ok. intros H i j Hi Hj. cbv zeta.
+  pose proof (forallb_seq _ _ (forallb_seq _ _ H i Hi) j Hj) as K. cbv beta zeta in K.
+  unfold nthv, nthr in K. split; intros E.
+  - apply Nat.eqb_eq in E. rewrite E in K. apply absle_R in K. exact K.
+  - apply Nat.eqb_neq in E. rewrite E in K. apply Rleb_true in K. exact K.
+Qed.
+
+(* the variance retained by the returned components equals the sum of sigma_i^2/(n-1) up to m 2^-20 T *)
+Lemma retained_vs_lams T lams scs G : length scs = length lams -> projcov_ok oR T lams scs G = true ->
+  Rabs (retained oR scs G - Rsum lams) <= INR (length lams) * (tolR 20 * T).
+Proof.
+  intros L H. rewrite retained_Rsum, L. rewrite <- (seq_nth_id lams) at 2.
+  set (f := fun i : nat => nth i scs 0 * nth i (nth i G []) 0).
+  set (g := fun i : nat => nth i lams 0).
+  assert (B : forall i, In i (seq 0 (length lams)) -> f i <= g i + tolR 20 * T /\ g i <= f i + tolR 20 * T).
+  { intros i Hi. apply in_seq in Hi. pose proof (projcov_ok_diag T lams scs G H i) as K.
+    unfold f, g. apply Rabs_le_inv in K; [lra|lia]. }
+  pose proof (Rsum_map_le_eps f g (tolR 20 * T) (seq 0 (length lams)) (fun i Hi => proj1 (B i Hi))) as U1.
+  pose proof (Rsum_map_le_eps g f (tolR 20 * T) (seq 0 (length lams)) (fun i Hi => proj2 (B i Hi))) as U2.
+  rewrite seq_length in U1, U2. apply Rabs_le. lra.
+Qed.
+
+(* the reported explained variances sum to the sum of sigma_i^2/(n-1) up to 2^-50 relative *)
+Lemma ev_sum_vs_lams lams ev : ev_ok oR lams ev = true ->
+  Rabs (Rsum ev - Rsum lams) <= tolR 50 * Rsum lams.
+Proof.
+  intros H. destruct (ev_ok_sound lams ev H) as [L K].
+  rewrite <- (seq_nth_id ev), <- (seq_nth_id lams), L.
+  set (f := fun i : nat => nth i ev 0). set (g := fun i : nat => nth i lams 0).
+  assert (B : forall i, In i (seq 0 (length lams)) ->
+                        f i <= g i + tolR 50 * g i /\ g i <= f i + tolR 50 * g i).
+  { intros i Hi. apply in_seq in Hi. pose proof (K i) as Ki. unfold f, g.
+    apply Rabs_le_inv in Ki; [lra|lia]. }
+  assert (U1 : Rsum (map f (seq 0 (length lams))) <= Rsum (map (fun i => g i + tolR 50 * g i) (seq 0 (length lams))))
+    by (apply Rsum_map_le; intros i Hi; apply (proj1 (B i Hi))).
+  assert (U2 : Rsum (map g (seq 0 (length lams))) <= Rsum (map (fun i => f i + tolR 50 * g i) (seq 0 (length lams))))
+    by (apply Rsum_map_le; intros i Hi; apply (proj2 (B i Hi))).
+  rewrite Rsum_map_plus, Rsum_map_scale in U1, U2. apply Rabs_le. lra.
+Qed.
+
+(* the explicit slack of the optimality statement: k requested, m returned components,
+   T = trace of the sample covariance, L = sum_i sigma_i^2/(n-1) *)
+Definition ky_slack (k m : nat) (T L : R) : R :=
+  (INR k * tolR 17 + tolR 20 + INR m * tolR 20) * T + tolR 50 * L.
+
+Lemma scs_lams_len whiten n (sg : list R) : length (scs_of oR whiten (lams_of oR n sg)) = length (lams_of oR n sg).
+Proof. unfold scs_of. apply map_length. Qed.
+Lemma lams_len n (sg : list R) : length (lams_of oR n sg) = length sg.
+Proof. unfold lams_of. apply map_length. Qed.
+
+(** for real data *)
+Theorem variance_optimality_R n p k whiten X mu sg W ev evr Qs invs Zs :
+  let ks := pca_checks oR n p k whiten X mu sg W ev evr Qs invs Zs in
+  let C := cov oR n p X in
+  let lams := lams_of oR n sg in
+  k_shape ks = true -> k_projcov ks = true -> k_ev ks = true -> k_coefs ks = true -> k_bound ks = true ->
+  (forall x, length x = p -> 0 <= Rquad (k_M ks) x) ->
+  forall U, orthonormal U -> Forall (fun u => length u = p) U -> length U = N.to_nat k ->
+  retained_by C U <=
+    Rsum ev + (INR (N.to_nat k) - INR (length sg)) * mu0_of oR k lams
+    + ky_slack (N.to_nat k) (length sg) (trace oR C) (Rsum lams).
+Proof.
+  cbv zeta. intros Hs Hp He Hc Hb HP U HO FU LU.
+  pose proof (leading_subspace_R n p k whiten X mu sg W ev evr Qs invs Zs) as LS. cbv zeta in LS.
+  specialize (LS Hs Hc Hb HP U HO FU LU).
+  unfold pca_checks in Hp, He. cbv zeta in Hp, He. cbn [k_projcov k_ev] in Hp, He.
+  pose proof (retained_vs_lams _ _ _ _ (scs_lams_len whiten n sg) Hp) as R1.
+  pose proof (ev_sum_vs_lams _ _ He) as R2. rewrite lams_len in R1.
+  apply Rabs_le_inv in R1. apply Rabs_le_inv in R2. unfold ky_slack. lra.
+Qed.
+
+(** the returned components attain the reported explained variances *)
+Theorem reported_variance_attained_R n p k whiten X mu sg W ev evr Qs invs Zs :
+  let ks := pca_checks oR n p k whiten X mu sg W ev evr Qs invs Zs in
+  let C := cov oR n p X in
+  let lams := lams_of oR n sg in
+  let scs := scs_of oR whiten lams in
+  k_projcov ks = true -> k_ev ks = true ->
+  Rabs (retained oR scs (G_of oR W (CW_of oR C W)) - Rsum ev)
+    <= INR (length sg) * tolR 20 * trace oR C + tolR 50 * Rsum lams.
+Proof.
+  cbv zeta. intros Hp He.
+  unfold pca_checks in Hp, He. cbv zeta in Hp, He. cbn [k_projcov k_ev] in Hp, He.
+  pose proof (retained_vs_lams _ _ _ _ (scs_lams_len whiten n sg) Hp) as R1.
+  pose proof (ev_sum_vs_lams _ _ He) as R2. rewrite lams_len in R1.
+  apply Rabs_le_inv in R1. apply Rabs_le_inv in R2. apply Rabs_le. lra.
+Qed.
+
+(* for a plain (not whitened) embedding that quantity is sum_i w_i^T C w_i, the variance retained by the rows of W *)
+Lemma retained_plain n (sg : list R) C W : length W = length sg ->
+  retained oR (scs_of oR false (lams_of oR n sg)) (G_of oR W (CW_of oR C W)) = retained_by C W.
+Proof.
+  intros L. rewrite retained_Rsum, scs_lams_len, lams_len, <- L. unfold retained_by.
+  rewrite <- (map_nth_seq_gen (fun u => Rquad C u) [] W). f_equal. apply map_ext_in. intros i Hi. apply in_seq in Hi.
+  pose proof (G_entry C W i i) as GE. unfold nthv, nthr in GE. change (zero oR) with 0 in GE. rewrite GE by lia.
+  rewrite Rquad_bil.
+  unfold scs_of, lams_of. rewrite map_map.
+  rewrite (nth_map_lt _ sg 0 0) by lia. simpl. ring.
+Qed.
+
+(** the same for the exact dyadic evaluation on the implementation's output *)
+Theorem variance_optimality_certified n p k whiten (X : list (list dq)) mu sg W ev evr Qs invs Zs :
+  let ks := pca_checks DQ_ops n p k whiten X mu sg W ev evr Qs invs Zs in
+  k_shape ks = true -> k_projcov ks = true -> k_ev ks = true -> k_coefs ks = true -> k_bound ks = true ->
+  lead_psd p (k_T ks) (k_M ks) = true ->
+  let C := cov oR n p (map (map D2R) X) in
+  let lams := lams_of oR n (map D2R sg) in
+  forall U, orthonormal U -> Forall (fun u => length u = p) U -> length U = N.to_nat k ->
+  retained_by C U <=
+    Rsum (map D2R ev) + (INR (N.to_nat k) - INR (length sg)) * mu0_of oR k lams
+    + ky_slack (N.to_nat k) (length sg) (trace oR C) (Rsum lams).
+Proof.
+  cbv zeta. intros Hs Hp He Hc Hb HL U HO FU LU.
+  destruct (hom_pca_checks D2R DQ_ops oR D2R_hom n p k whiten X mu sg W ev evr Qs invs Zs)
+    as (_ & E2 & _ & _ & E5 & E6 & _ & _ & _ & E10 & E11 & _ & _ & EM).
+  cbv zeta in E2, E5, E6, E10, E11, EM. rewrite E2 in Hs. rewrite E5 in Hp. rewrite E6 in He.
+  rewrite E10 in Hc. rewrite E11 in Hb.
+  pose proof (variance_optimality_R n p k whiten (map (map D2R) X) (map D2R mu) (map D2R sg) (map (map D2R) W)
+                (map D2R ev) (map D2R evr) (map (map D2R) Qs) (map (map D2R) invs) (map (map D2R) Zs)) as R.
+  cbv zeta in R. rewrite map_length in R. apply R; auto.
+  rewrite <- EM. apply (lead_psd_sound p _ _ HL). rewrite EM.
+  unfold pca_checks. cbv zeta. cbn [k_M].
+  destruct (shape_ok_sound p k _ _ Hs) as (_ & _ & FW).
+  apply rect_Mlead; [apply rect_cov|exact FW].
+Qed.
+
+(** the headline: when all k requested components came back, no orthonormal k-frame retains more
+    variance than the sum of the reported explained variances, up to the slack *)
+Theorem no_projection_retains_more_variance n p k whiten (X : list (list dq)) mu sg W ev evr Qs invs Zs :
+  let ks := pca_checks DQ_ops n p k whiten X mu sg W ev evr Qs invs Zs in
+  k_shape ks = true -> k_projcov ks = true -> k_ev ks = true -> k_coefs ks = true -> k_bound ks = true ->
+  lead_psd p (k_T ks) (k_M ks) = true -> length sg = N.to_nat k ->
+  let C := cov oR n p (map (map D2R) X) in
+  let lams := lams_of oR n (map D2R sg) in
+  forall U, orthonormal U -> Forall (fun u => length u = p) U -> length U = N.to_nat k ->
+  retained_by C U <= Rsum (map D2R ev) + ky_slack (N.to_nat k) (N.to_nat k) (trace oR C) (Rsum lams).
+Proof.
+  cbv zeta. intros Hs Hp He Hc Hb HL Lk U HO FU LU.
+  pose proof (variance_optimality_certified n p k whiten X mu sg W ev evr Qs invs Zs) as V. cbv zeta in V.
+  specialize (V Hs Hp He Hc Hb HL U HO FU LU). rewrite Lk in V. lra.
+Qed.
+
+Theorem reported_variance_attained_certified n p k whiten (X : list (list dq)) mu sg W ev evr Qs invs Zs :
+  let ks := pca_checks DQ_ops n p k whiten X mu sg W ev evr Qs invs Zs in
+  k_projcov ks = true -> k_ev ks = true ->
+  let WR := map (map D2R) W in
+  let C := cov oR n p (map (map D2R) X) in
+  let lams := lams_of oR n (map D2R sg) in
+  let scs := scs_of oR whiten lams in
+  Rabs (retained oR scs (G_of oR WR (CW_of oR C WR)) - Rsum (map D2R ev))
+    <= INR (length sg) * tolR 20 * trace oR C + tolR 50 * Rsum lams.
+Proof.
+  cbv zeta. intros Hp He.
+  destruct (hom_pca_checks D2R DQ_ops oR D2R_hom n p k whiten X mu sg W ev evr Qs invs Zs)
+    as (_ & _ & _ & _ & E5 & E6 & _).
+  cbv zeta in E5, E6. rewrite E5 in Hp. rewrite E6 in He.
+  pose proof (reported_variance_attained_R n p k whiten (map (map D2R) X) (map D2R mu) (map D2R sg) (map (map D2R) W)
+                (map D2R ev) (map D2R evr) (map (map D2R) Qs) (map (map D2R) invs) (map (map D2R) Zs) Hp He) as R.
+  cbv zeta in R. rewrite map_length in R. exact R.
+Qed.
+
+(* ========================================================================================== *)
+(** * Part G: the scores `predict` returned for the training rows *)
+Lemma scorecov_ok_sound n T lams scs Z : scorecov_ok oR n T lams scs Z = true ->
+  length Z = N.to_nat n /\ Forall (fun z => length z = length lams) Z /\
+  let S := cov oR n (length lams) Z in
+  forall i j, (i < length lams)%nat -> (j < length lams)%nat ->
+  let s := nth j (nth i S []) 0 in
+  (i = j -> Rabs (nth i scs 0 * s - nth i lams 0) <= tolR 20 * T) /\
+  (i <> j -> nth i scs 0 * nth j scs 0 * (s * s) <= (tolR 20 * T) * (tolR 20 * T)).
+Proof.
+  unfold scorecov_ok. intros H. apply andb_true_iff in H as [H H3]. apply andb_true_iff in H as [H1 H2].
+  apply N.eqb_eq in H1. repeat split.
+  - rewrite <- H1. rewrite Nnat.Nat2N.id. reflexivity.
+  - apply Forall_forall. intros z Hz. rewrite forallb_forall in H2. apply Nat.eqb_eq. apply (H2 z Hz).
+  - destruct (projcov_ok_entries T lams scs _ H3 i j H0 H4) as [A _]. exact A.
+  - destruct (projcov_ok_entries T lams scs _ H3 i j H0 H4) as [_ B]. exact B.
+Qed.
+
+(* an entry of the sample covariance is the centred cross moment of two columns divided by n-1 *)
+Lemma cov_entry n m (Z : list (list R)) i j : (i < m)%nat -> (j < m)%nat ->
+  let Zc := centre oR Z (emean oR (of_N oR n) (cols oR m Z)) in
+  nth j (nth i (cov oR n m Z) []) 0 = Rdot (column oR i Zc) (column oR j Zc) / (INR (N.to_nat n) - 1).
+Proof.
+  intros Hi Hj. cbv zeta. unfold cov, gram, cols.
+  rewrite (nth_map_lt _ _ [] []) by (rewrite map_length, seq_length; exact Hi).
+  rewrite (nth_map_lt _ _ [] 0) by (rewrite map_length, seq_length; exact Hj).
+  rewrite !(nth_map_lt _ _ 0%nat []) by (rewrite seq_length; assumption).
+  rewrite !seq_nth by assumption. rewrite dot_Rdot. reflexivity.
+Qed.
+
+(* ========================================================================================== *)
+(** * non-vacuity *)
+Definition ex_full : @pca R := mkpca [[0; 1]; [1; 0]] [2; 1] [3; 4] 5.
+Example ex_full_rank_premises :
+  gram_identity (embedding ex_full) /\ orthogonal (embedding ex_full) /\
+  Forall (fun w => length w = length (pmean ex_full)) (embedding ex_full) /\
+  length (embedding ex_full) = length (pmean ex_full).
+Proof.
+  repeat split; simpl; auto; try lra; try (repeat constructor; lra).
+  intros i j Hi Hj. simpl in Hi, Hj. destruct i as [|[|i]]; destruct j as [|[|j]]; try lia; simpl; ring.
+Qed.
+Example ex_full_rank_instance : inverse_row oR ex_full (predict_row oR ex_full [7; -2]) = [7; -2].
+Proof.
+  destruct ex_full_rank_premises as (_ & HO & FW & LW). apply full_rank_roundtrip_identity; auto.
+Qed.
+(* a whitened full embedding: orthogonal, not normalised *)
+Definition ex_full_w : @pca R := mkpca [[0; 2]; [3; 0]] [2; 1] [3; 4] 5.
+Example ex_full_rank_whitened : inverse_row oR ex_full_w (predict_row oR ex_full_w [7; -2]) = [7; -2].
+Proof.
+  apply full_rank_roundtrip_identity; simpl; auto; repeat split; try lra; repeat constructor; simpl; lra.
+Qed.
+(* with fewer than p components the identity fails: the hypothesis length W = p is needed *)
+Definition ex_short : @pca R := mkpca [[1; 0]] [2] [0; 0] 5.
+Example ex_short_not_identity : inverse_row oR ex_short (predict_row oR ex_short [1; 1]) <> [1; 1].
+Proof. unfold inverse_row, inverse_coefs, predict_row, sq_norms, row_dot. simpl. intros E. injection E. intros. lra. Qed.
+
+(* the optimality theorem applied to the concrete accepted fit of C18/Proofs.v (ex_checks: five records in
+   the plane, covariance diag(1, 1/4), k = 1, reported variance 1): the second axis retains at most 1 + slack *)
+Example ex_optimality_instance :
+  retained_by (cov oR 5 2 (map (map D2R) exX)) [[0; 1]]
+  <= Rsum (map D2R [exq 1]) + ky_slack 1 1 (trace oR (cov oR 5 2 (map (map D2R) exX)))
+                                         (Rsum (lams_of oR 5 (map D2R [exq 2]))).
+Proof.
+  pose proof ex_all_conjuncts as (_ & Hs & _ & _ & Hp & He & _ & _ & _ & Hc & Hb & _ & HL).
+  apply (no_projection_retains_more_variance 5 2 1 false exX [exq 0; exq 0] [exq 2] [[exq 1; exq 0]]
+           [exq 1] [exq 1] exX
+           (map (map (fun z => mkdq z (-1) 1)) [[2; 0]; [-2; 0]; [2; 0]; [-2; 0]; [0; 0]]%Z)
+           (map (map (fun z => mkdq z (-1) 1)) [[2]; [-2]; [2]; [-2]; [0]]%Z)); auto.
+  - simpl. repeat split; auto; lra.
+  - repeat constructor.
+Qed.
+
+(* scores with the wrong variance (here: doubled) are refused by the score-covariance conjunct *)
+Example ex_scores_rejected :
+  k_scores (pca_checks DQ_ops 5 2 1 false exX [exq 0; exq 0] [exq 2] [[exq 1; exq 0]] [exq 1] [exq 1] [] []
+                       (map (map exq) [[2]; [-2]; [2]; [-2]; [0]]%Z)) = false.
+Proof. vm_compute. reflexivity. Qed.
